@@ -4,6 +4,7 @@ import (
 	"fmt"
 	sdk "github.com/cosmos/cosmos-sdk/types"
 	sdkerrors "github.com/cosmos/cosmos-sdk/types/errors"
+	undtypes "github.com/unification-com/mainchain/types"
 	"github.com/unification-com/mainchain/x/beacon/exported"
 	"github.com/unification-com/mainchain/x/beacon/types"
 )
@@ -82,7 +83,7 @@ func (wfd CorrectBeaconFeeDecorator) AnteHandle(ctx sdk.Context, tx sdk.Tx, simu
 }
 
 func checkBeaconMaxSlots(ctx sdk.Context, tx sdk.FeeTx, bk BeaconKeeper) error {
-	msgs := tx.GetMsgs()
+	msgs := undtypes.UnwrapMsgs(tx.GetMsgs())
 
 	type b struct {
 		max  uint64
@@ -120,7 +121,7 @@ func checkBeaconMaxSlots(ctx sdk.Context, tx sdk.FeeTx, bk BeaconKeeper) error {
 }
 
 func checkBeaconFees(ctx sdk.Context, tx sdk.FeeTx, bk BeaconKeeper) error {
-	msgs := tx.GetMsgs()
+	msgs := undtypes.UnwrapMsgs(tx.GetMsgs())
 	numMsgs := 0
 	expectedFees := bk.GetZeroFeeAsCoin(ctx)
 	expectedFeeDenom := bk.GetParamDenom(ctx)
